@@ -730,6 +730,94 @@ def run_probe(scn, ctx, w, canon):
             ctx.count('probe:after_ioerror:next_pass_incomplete')
 
 
+def _hist_of_resample(values, mags):
+    h = numpy.zeros(len(mags['edges']))
+    for v in numpy.asarray(values, dtype=float).ravel().tolist():
+        k = mbin_of(v, mags)
+        h[k] += 1
+    return h
+
+
+def check_c10(ctx, scn, model, name, op, vs, calls, oi):
+    """Library result vs the documented statistic on the literal catalogs + recorded draws."""
+    obs_counts = grid_counts(scn['obs'][op['obs']]['events'], scn['region'], scn['mags'])
+    n_obs = float(obs_counts.sum())
+    if model.n_union == 0:
+        ctx.count('precond:NU0')
+        return
+    if name == 'number':
+        want = model.number(obs_counts)
+    elif name == 'spatial':
+        want = model.spatial(obs_counts)
+    elif name == 'magnitude':
+        want = model.magnitude(obs_counts)
+    elif name == 'pseudolikelihood':
+        want = model.pseudolikelihood(obs_counts)
+    else:
+        choices = [c for c in calls if c[0] == 'choice']
+        if n_obs == 0:
+            hists = []
+        else:
+            if len(choices) != model.J:
+                if not calls:
+                    ctx.count('unobserved_rng_stream')
+                    return
+                ctx.violate('C10', 'resampling', '%s:number-of-resamples' % name,
+                            {'op': oi, 'choice_calls': len(choices), 'J': model.J})
+                return
+            for c in choices:
+                if numpy.size(c[2]) != int(n_obs):
+                    ctx.violate('C10', 'resampling', '%s:resample-size' % name,
+                                {'op': oi, 'size': int(numpy.size(c[2])), 'n_obs': n_obs})
+                    return
+            hists = [_hist_of_resample(c[2], scn['mags']) for c in choices]
+        want = model.resampled_magnitude(obs_counts, hists) if name == 'resampled_magnitude' \
+            else model.mll(obs_counts, hists)
+    ctx.count('c10_compared:' + name)
+    if want is None:
+        if vs is not None:
+            ctx.violate('C10', 'undefined_signalled', '%s:result-for-undefined' % name,
+                        {'op': oi, 'status': vs['status'], 'quantile': vs['quantile']})
+        else:
+            ctx.count('rare:no_result_signalled')
+        return
+    if vs is None:
+        ctx.violate('C10', 'statistic', '%s:no-result' % name, {'op': oi, 'want_status': want['status']})
+        return
+    if want['status'] != vs['status']:
+        ctx.violate('C10', 'status', '%s:%s-instead-of-%s' % (name, vs['status'], want['status']),
+                    {'op': oi, 'n_obs': n_obs})
+        return
+    if want['status'] != 'normal':
+        ctx.count('rare:status_' + want['status'])
+    if want['status'] == 'not-valid':
+        q = vs['quantile']
+        qs = q if isinstance(q, tuple) else (q,)
+        if any(x is not None and 0 <= x <= 1 for x in qs):
+            ctx.violate('C10', 'undefined_signalled', '%s:numeric-quantile-when-not-valid' % name,
+                        {'op': oi, 'quantile': q})
+        return
+    if not models.close(vs['obs'], want['obs']):
+        ctx.violate('C10', 'statistic', '%s:observed' % name, {'op': oi, 'got': vs['obs'], 'want': want['obs']})
+        return
+    if vs['obs'] is not None and numpy.isinf(vs['obs']):
+        ctx.violate('C10', 'statistic', '%s:silent-infinite' % name, {'op': oi})
+    if not models.close_seq(vs['dist'], want['dist']):
+        sig = 'distribution-length' if len(vs['dist']) != len(want['dist']) else 'distribution'
+        ctx.violate('C10', 'statistic', '%s:%s' % (name, sig), {'op': oi, 'got': vs['dist'], 'want': want['dist']})
+        return
+    # quantiles: C09 convention applied to the library's own returned numbers (ulp ties)
+    if len(vs['dist']) > 0 and vs['obs'] is not None:
+        ge, le = models.ecdf_ge_le(vs['dist'], vs['obs'])
+        q = vs['quantile']
+        if not (isinstance(q, tuple) and len(q) == 2 and models.close(q[0], ge, 1e-12, 1e-12)
+                and models.close(q[1], le, 1e-12, 1e-12)):
+            ctx.violate('C10', 'quantile', '%s:not-empirical-probabilities' % name,
+                        {'op': oi, 'got': q, 'want': (ge, le)})
+    elif len(vs['dist']) == 0:
+        ctx.count('rare:empty_distribution')
+
+
 # --------------------------------------------------------------------------- systematic sweep (C13)
 
 SWEEP_OPS = ('ITER', 'COUNTS', 'RATES', 'SPATIAL', 'MAGS', 'T:number', 'T:spatial', 'T:magnitude',
